@@ -44,8 +44,12 @@ View == viewvars
 \* configuration, so that a configuration has a handful of runs instead of 3^nodes (halt answers stay free); the full
 \* nondeterminism is explored by the exhaustive configs and, on the real code, by the random trace driver
 Salt == cfg.sc + cfg.sn + cfg.cap + Len(cfg.steps)
+\* iteration 0 of a node runs through (both converge, only the first, only the second, none) as cycle + node + Salt grows;
+\* iteration 1 continues the pattern three places further, so all of: converged at once, converged at the second iteration,
+\* cap reached without convergence, occur among the printed runs
+PatternCv(i, k) == IF i % 2 = 1 THEN k % 4 \in {0, 1} ELSE k % 4 \in {0, 2}
 EmitEnv == /\ (Len(log') > Len(log) /\ lastc'.e = "CPL" /\ cfg.ifs[lastc'.i].cpl)
-                  => (lastc'.cv <=> ((cycle + node + iter + lastc'.i + Salt) % 2 = 0))
+                  => (lastc'.cv <=> PatternCv(lastc'.i, cycle + node + Salt + 3 * iter))
            \* meaningless return values (hooks other than BOC) of halting interfaces: True on about a third of the BOL / EN / EOC /
            \* EOL calls, never at Coupled (there the short-circuit of the real _interactAll would also change which couplers move
            \* and hence the rest of the schedule, and a divergence could no longer be attributed to its cause)
